@@ -124,6 +124,8 @@ func runC15(c *Ctx) {
 		seen := map[string]bool{}
 		for i, ret := range cf.Returns() {
 			if len(ret.Results) != 2 {
+				// e.g. `return d.LAN.GetValue(...)`: one DHT's answer handed back without consulting the other
+				c.Check(K(f.Name, "return#"+itoa(i)+" shape"), ret.Pos(), false, "every return of GetValue is one of the three outcomes decided after both lookups ran", "returns "+short(ret.Results[0])+" directly")
 				continue
 			}
 			loc := cf.LocOf(ret)
